@@ -294,6 +294,20 @@ func checkC06(c *Check) {
 	c06NoModelOnError(c, fns)
 	c06NamesFile(c)
 	c06NoHang(c, fns)
+	// a failed conversion or read must not be remembered as a success: the pipeline
+	// and everything a foreign import runs through (importers)
+	memoScope := map[*ssa.Function]bool{}
+	for _, f := range fns {
+		memoScope[f] = true
+	}
+	for _, f := range p.RepoFuncs() {
+		if fnPkgPath(f) == repoMod+"/pkg/importer" && !strings.HasSuffix(p.fnFile(f), "_test.go") {
+			memoScope[f] = true
+		}
+	}
+	nM := memoOnFailure(c, "MEMO-ON-FAILURE", memoScope)
+	c.Counts["memo_entries_filed"] = nM
+	c.Okf("MEMO-ON-FAILURE", "scan", "-", "%d pipeline and importer functions scanned for look-up-or-compute tables filled by functions that can fail: %d entries filed, each evaluated", len(memoScope), nM)
 }
 
 func shortObj(o *types.Func) string {
@@ -624,12 +638,12 @@ func c06NoHang(c *Check, fns []*ssa.Function) {
 			case *ssa.Send:
 				// a token put into a semaphore channel held in a struct field is
 				// decided by the pairing / nesting rules below
-				if _, _, _, isField := loadedField(unspill(x.Chan)); !isField {
+				if !isSemaphoreChan(x.Chan) {
 					bad = "channel send"
 				}
 			case *ssa.UnOp:
 				if x.Op == token.ARROW {
-					if _, _, _, isField := loadedField(unspill(x.X)); !isField {
+					if !isSemaphoreChan(x.X) {
 						bad = "channel receive"
 					}
 				}
@@ -854,4 +868,18 @@ func callersNameFile(p *Program, f *ssa.Function, ei int, dependsOnFile func(ssa
 		})
 	}
 	return ok && sites > 0
+}
+
+// isSemaphoreChan: a channel kept in a struct field or in a package variable of
+// the repository — used as a counting semaphore and decided by the pairing and
+// nesting rules (RESOURCE-PAIR, HELD-ACROSS-NESTING).
+func isSemaphoreChan(v ssa.Value) bool {
+	v = unspill(v)
+	if _, _, _, isField := loadedField(v); isField {
+		return true
+	}
+	if g, ok := loadsGlobal(v); ok && g.Pkg != nil && isRepoPkg(g.Pkg.Pkg) {
+		return true
+	}
+	return false
 }
